@@ -468,7 +468,7 @@ fn token_enumeration(ctx: &Ctx) {
         json!({"tokens": format!("{:?}", seq), "text": render(&seq, &u, 2), "label": format!("{:?}", model(&seq).0)})
     });
     // thorough: seeded longer sequences
-    let extra = ctx.tier.pick(20_000, 400_000);
+    let extra = ctx.tier.pick(20_000, 2_000_000);
     par_for(16, crate::util::ncpu(), |sh| {
         let mut rng = Rng::fork(ctx.seed, &format!("C17-long-{}", sh));
         for _ in 0..extra / 16 {
@@ -806,7 +806,7 @@ fn boundary_name_block(ctx: &Ctx) {
 }
 
 fn no_crash_on_text(ctx: &Ctx) {
-    let n = ctx.tier.pick(20_000, 400_000);
+    let n = ctx.tier.pick(20_000, 1_000_000);
     par_for(16, crate::util::ncpu(), |sh| {
         let mut rng = Rng::fork(ctx.seed, &format!("C17-fuzz-{}", sh));
         let frags = ["[Key]", "Name", "PublicKey", "PrivateKey", "=", " ", "\t", "\n", "\r\n", "#", "a", "\u{e9}", "\u{1f511}", "AAAA", "[", "]", "Key", "==", "\u{0}", "\u{2028}"];
